@@ -1774,7 +1774,9 @@ impl FnSig {
 }
 
 pub fn to_rust_ident(name: &str) -> String {
-    match name {
+    // Keywords are matched against the final snake_case spelling so that
+    // upper-case WIT names such as `TYPE` are escaped as well.
+    match name.to_snake_case().as_str() {
         // Escape Rust keywords.
         // Source: https://doc.rust-lang.org/reference/keywords.html
         "as" => "as_".into(),
@@ -1827,7 +1829,8 @@ pub fn to_rust_ident(name: &str) -> String {
         "virtual" => "virtual_".into(),
         "yield" => "yield_".into(),
         "try" => "try_".into(),
-        s => s.to_snake_case(),
+        "gen" => "gen_".into(),
+        s => s.to_string(),
     }
 }
 
